@@ -24,7 +24,10 @@ SPEC = dict(
     bounded=[dict(name='C13-bounded', script='bounded/C13.py')],
     replay_finder='bounded/C13.py',
     explanation='safety half of the variable builder proved (nothing else changes, budget, termination); exact enumeration, terminal rules, append / overwrite values and idempotence bounded',
-    proved_clauses=['static builder (residue rules): modifications on every matched residue and on no other; skip mode keeps existing modifications; everything else untouched',
+    proved_clauses=['static builder, terminal rules (N-terminal / C-terminal rule maps, any mode): the terminus is modified iff a rule with a non-empty '
+                    'modification list matches the first / last residue; skip mode keeps an existing terminal modification; everything but that '
+                    'terminus is untouched (apply_static_mods~nterm / ~cterm, 125 obligations each)',
+                    'static builder (residue rules): modifications on every matched residue and on no other; skip mode keeps existing modifications; everything else untouched',
                     'variable builder: original residues and pre-existing modifications intact, changes only at offered positions, at most max_mods additional modified residues, terminates'],
     bounded_clauses=['static builder: per-site exactness, modes, idempotence', 'variable builder: exact enumeration (skip), weaker clause otherwise'],
     uncovered_clauses=['zero-width regex rule keys'], assumptions=['LC-DEEPCOPY'], trusted_base=['z3 5.1', 'cvc5 1.0.3', 'pyvc', 'bounded/C13.py'],
